@@ -27,6 +27,10 @@ MUTANTS = [
     ("roll-pos", N, "            group_positions[key] = (pos + 1) % window", "            group_positions[key] = pos + 1", None, "_rolling_sum_or_mean_1d", "buffer position runs off the window"),
     ("roll-nodec", N, "                    group_sums[key] -= old_val\n                    group_non_null[key] -= 1", "                    group_sums[key] -= old_val", None, "_rolling_sum_or_mean_1d", "non-null counter never decremented"),
     ("roll-full", N, "            group_full = group_n_seen[key] >= window\n            if group_full:\n                old_val", "            group_full = group_n_seen[key] > window\n            if group_full:\n                old_val", None, "_rolling_sum_or_mean_1d", "window one row too long"),
+    ("rmm-nullskip", N, "        if is_null(v):\n            continue\n        if want_max and v >= best", "        if want_max and v >= best", None, "min_or_max_and_position[int,want_max=False]", "integer null wins the minimum (the pinned C09 defect)"),
+    ("rmm-improve", N, "                    or (want_max and val >= cur_best)\n", "                    or (want_max and val <= cur_best)\n", None, "_rolling_max_or_min_1d[float,chunked,mask=None,max", "running max replaced by smaller values"),
+    ("rmm-norecalc", N, "            if group_full and need_recalc:\n", "            if group_full and need_recalc and val_is_null:\n", None, "_rolling_max_or_min_1d[float,chunked,mask=None,max", "stale extremum survives the eviction of its row"),
+    ("rmm-nodec", N, "                if not is_null(to_remove):\n                    group_non_null[key] -= 1\n\n            group_buffers[key, pos] = val\n            # Add new value", "                pass\n\n            group_buffers[key, pos] = val\n            # Add new value", None, "_rolling_max_or_min_1d[float,chunked,mask=None,min", "non-null counter never decremented"),
     ("shift-order", N, "            group_buffers[key, pos] = val\n            # Update position\n            group_buffer_pos[key] = (pos + 1) % window", "            group_buffers[key, pos] = val\n            # Update position\n            group_buffer_pos[key] = (pos + 2) % window", None, "_rolling_shift_or_diff_1d", "buffer position skips a slot"),
     ("wcs-last", FZ, "    if codes[-1] == -1:\n        return -1\n", "", None, "_weight_code_sum", "null in the last key not propagated"),
     ("mono-nan", FZ, "        if not x >= prev:\n", "        if x < prev:\n", None, "_monotonic_factorization[float", "a NaN inside a sorted run inherits its predecessor's code"),
